@@ -405,9 +405,45 @@ type rqCase struct {
 	topic         string
 	fail          bool
 	msg           msgDesc
+	// kind rqp: GeneratePublishTopic is a function of the message it is shown
+	policy string            // "" (scripted answer) | budget:<k>:<work>:<dead> | meta:<key>
+	called bool              // the topic function was called for this message
+	shown  map[string]string // metadata of the message it was shown, at that moment
+}
+
+// policyTopic evaluates the policy on the message the topic function is shown.
+func policyTopic(policy string, m *message.Message) (string, error) {
+	f := strings.Split(policy, ":")
+	switch f[0] {
+	case "budget": // a retry budget: after k requeues the message goes to the dead-letter topic
+		k, _ := strconv.Atoi(f[1])
+		n, err := strconv.Atoi(m.Metadata.Get(requeuer.RetriesKey))
+		if err != nil {
+			n = 0
+		}
+		if n >= k {
+			return f[3], nil
+		}
+		return f[2], nil
+	case "meta": // the topic is named by a metadata value
+		t := m.Metadata.Get(f[1])
+		if t == "" {
+			return "", errors.New("no topic in the message")
+		}
+		return t, nil
+	}
+	return "", errors.New("bad policy")
 }
 
 func (c *rqCase) req() string {
+	if c.policy != "" {
+		f := strings.Split(c.policy, ":")
+		pol := "meta:" + wh.HexS(f[1])
+		if f[0] == "budget" {
+			pol = "budget:" + f[1] + ":" + wh.HexS(f[2]) + ":" + wh.HexS(f[3])
+		}
+		return "rqp " + bit(c.delay) + " " + bit(c.cancel) + " " + pol + " " + dest(c.fail) + " " + c.msg.fields()
+	}
 	tg := "err"
 	if c.tgOK {
 		tg = "ok:" + wh.HexS(c.topic)
@@ -441,6 +477,14 @@ func newRq(delay, ownRouter bool) (*rqEnv, error) {
 			if !ok {
 				e.tgOther = true
 				return "", errors.New("unknown message object")
+			}
+			if cur.policy != "" {
+				cur.called = true
+				cur.shown = map[string]string{}
+				for k, v := range p.Message.Metadata {
+					cur.shown[k] = v
+				}
+				return policyTopic(cur.policy, p.Message)
 			}
 			if !cur.tgOK {
 				return "", errors.New("no route for this message")
@@ -501,7 +545,17 @@ func (e *rqEnv) run(c *rqCase) string {
 	if other {
 		return "tg-other-message"
 	}
-	return renderPubs(e.pub.take(), true) + " A:" + wh.Meta(m.Metadata) + " S:" + s
+	obs := renderPubs(e.pub.take(), true) + " A:" + wh.Meta(m.Metadata) + " S:" + s
+	if c.policy != "" {
+		e.mu.Lock()
+		g := "!"
+		if c.called {
+			g = wh.Meta(c.shown)
+		}
+		e.mu.Unlock()
+		obs += " G:" + g
+	}
+	return obs
 }
 
 // burst: all cases at once (unique uuids); observations per message in the sequential format.
@@ -624,6 +678,56 @@ func rqCases(out *wh.Out, rng *wh.Rng, nRandom, nBursts int) {
 		}
 		env.close()
 	}
+	// topic functions that read the message they are shown: retry budgets around the threshold, topic named by metadata
+	// (also by the retries header itself); the destination fails on every third message
+	penv, err := newRq(false, true)
+	if err != nil {
+		fatal("requeuer setup", err)
+	}
+	np := 0
+	addP := func(policy string, prior string, hasPrior bool, extra map[string]string) {
+		if isStalled() {
+			return
+		}
+		np++
+		c := &rqCase{policy: policy, msg: rndMsg(rng, rndBytes), fail: np%3 == 0}
+		delete(c.msg.meta, "_watermill_requeuer_retries")
+		if hasPrior {
+			c.msg.meta["_watermill_requeuer_retries"] = prior
+		}
+		for k, v := range extra {
+			c.msg.meta[k] = v
+		}
+		c.called, c.shown = false, nil
+		obs := penv.run(c)
+		out.Case(c.req(), obs)
+		out.Count("rq.policy." + strings.SplitN(policy, ":", 2)[0])
+	}
+	for _, k := range []int{1, 2, 3, 5} {
+		pol := "budget:" + strconv.Itoa(k) + ":work-" + strconv.Itoa(rng.Intn(1000)) + ":dead_letter"
+		addP(pol, "", false, nil)
+		for d := -2; d <= 1; d++ {
+			if k+d >= 0 {
+				addP(pol, strconv.Itoa(k+d), true, nil)
+			}
+		}
+		for _, pr := range []string{"x", "+" + strconv.Itoa(k-1), " " + strconv.Itoa(k), "-1", "9223372036854775806"} {
+			addP(pol, pr, true, nil)
+		}
+	}
+	for i := 0; i < nRandom/3; i++ {
+		k := rng.Intn(6)
+		addP("budget:"+strconv.Itoa(k)+":work:dead", strconv.Itoa(rng.Intn(7)), rng.Intn(5) > 0, nil)
+	}
+	for _, pr := range []string{"0", "1", "41", "x7", "007"} {
+		addP("meta:_watermill_requeuer_retries", pr, true, nil) // the topic is named by the counter as it arrived
+	}
+	addP("meta:_watermill_requeuer_retries", "", false, nil)
+	for i := 0; i < 6; i++ {
+		addP("meta:route", strconv.Itoa(i), i%2 == 0, map[string]string{"route": "to-" + rndBytes(rng, 4)})
+	}
+	addP("meta:route", "3", true, nil) // no route in the message: the topic function fails
+	penv.close()
 	// Delay > 0: a message whose context is already done is not requeued; others are, after the delay
 	env, err := newRq(true, false)
 	if err != nil {
@@ -1296,6 +1400,20 @@ func replay(out *wh.Out, line string) {
 			fatal("requeuer setup", err)
 		}
 		out.Case(line, env.run(c))
+		env.close()
+	case "rqp":
+		c := &rqCase{delay: f[1] == "1", cancel: f[2] == "1", fail: f[4] == "fail", msg: parseMsgFields(f[5:8])}
+		pf := strings.Split(f[3], ":")
+		if pf[0] == "budget" {
+			c.policy = "budget:" + pf[1] + ":" + unhex(pf[2]) + ":" + unhex(pf[3])
+		} else {
+			c.policy = "meta:" + unhex(pf[1])
+		}
+		env, err := newRq(c.delay, false)
+		if err != nil {
+			fatal("requeuer setup", err)
+		}
+		out.Case(c.req(), env.run(c))
 		env.close()
 	case "fanin":
 		var srcs []string
